@@ -10,7 +10,7 @@ from __future__ import annotations
 import ast
 import itertools
 
-from ..core import AnalysisError, assigned_targets, call_name, calls_in, const_str, dotted, src
+from ..core import FuncNode, AnalysisError, assigned_targets, call_name, calls_in, const_str, dotted, src
 from ..tables import inline_single_assignments, arm_value, if_chain, py_eval, sql_eval
 
 EXPLANATION = (
@@ -169,6 +169,59 @@ def run(ctx):
             r2.check(mt == (d == s), f"{qm.rel}:CallGraphQuery.filter_execution_statuses:{s}:{rowname}", f"execution with {rowname} is displayed {d} but filter {s} {'matches' if mt else 'does not match'}", qm.rel, fes.lineno, note=f"display={d}")
     ctx.assume("an Execution row is only written together with its root Job row (record_job_start), so executions without a root job are outside the table")
     _console_rules(ctx, repo, display, ERR, err_q, JOB_STATUSES)
+    # ---- C33.5 the displayed status is not a stale memo --------------------------------------
+    # Job.status / Execution.status memoise their result in a plain attribute that the @reconstructor resets.  The filter reads the columns; the display
+    # reads the memo.  They agree for an ORM object that stays in the session across record_job_end only if the memo is dropped whenever SQLAlchemy
+    # expires/refreshes the object's columns, and a freshly constructed object (record_job_start returns one) must have the memo at all.
+    r5 = ctx.rule("C33.5", "memoised status fields are initialised by the constructor and dropped on expire/refresh", floor=4)
+    listeners = {}  # (model, event) -> handler function names
+    for n in ast.walk(db.tree):
+        if isinstance(n, ast.Call) and call_name(n) in ("event.listen", "event.listens_for") and len(n.args) >= 2:
+            tgt, evn = n.args[0], const_str(n.args[1])
+            models = [src(tgt)]
+            p = db.parent.get(n)
+            while p is not None:
+                if isinstance(p, ast.For) and src(p.target) == src(tgt) and isinstance(p.iter, (ast.Tuple, ast.List)):
+                    models = [src(e) for e in p.iter.elts]
+                p = db.parent.get(p)
+            handler = src(n.args[2]) if len(n.args) > 2 else None
+            if handler is None:
+                dec = db.parent.get(n)
+                handler = dec.name if isinstance(dec, FuncNode) else None
+            for mo in models:
+                listeners.setdefault((mo, evn), []).append(handler)
+    for model in ("Job", "Execution"):
+        cls = db.cls(model)
+        recon = [st for st in cls.body if isinstance(st, FuncNode) and any(src(d) == "reconstructor" for d in st.decorator_list)]
+        memos = sorted({t.attr for st in recon for a in ast.walk(st) if isinstance(a, (ast.Assign, ast.AnnAssign)) for t in ([a.target] if isinstance(a, ast.AnnAssign) else a.targets) if isinstance(t, ast.Attribute) and src(t.value) == "self"})
+        cached = [f for f in memos if any(isinstance(a, ast.Assign) and any(isinstance(t, ast.Attribute) and t.attr == f and src(t.value) == "self" for t in a.targets) for st in cls.body if isinstance(st, FuncNode) and st not in recon for a in ast.walk(st))]
+        if not cached:
+            r5.good(f"{db.rel}:{model}:no-memo", "status is computed on every read")
+            continue
+        init = next((st for st in cls.body if isinstance(st, FuncNode) and st.name == "__init__"), None)
+        ok_init = init is not None and (any(call_name(c) in {f"self.{r.name}" for r in recon} for c in calls_in(init)) or all(any(isinstance(t, ast.Attribute) and t.attr == f for a in ast.walk(init) if isinstance(a, ast.Assign) for t in a.targets) for f in cached))
+        r5.check(
+            ok_init,
+            f"{db.rel}:{model}.__init__:memo-initialised",
+            f"{model} memoises {cached} but only the @reconstructor sets the field: a {model} object constructed in this process (e.g. the row returned by record_job_start) raises AttributeError on .status",
+            db.rel,
+            cls.lineno,
+        )
+        for evn in ("expire", "refresh"):
+            hs = [h for h in listeners.get((model, evn), []) if h]
+            resets = False
+            for h in hs:
+                hf = db.funcs.get(h)
+                if hf is not None and all(any(isinstance(a, ast.Assign) and any(isinstance(t, ast.Attribute) and t.attr == f for t in a.targets) for a in ast.walk(hf)) for f in cached):
+                    resets = True
+            r5.check(
+                resets,
+                f"{db.rel}:{model}:memo-dropped-on-{evn}",
+                f"{model}.status memoises its value in {cached}, which nothing resets when the session {evn}s the object's columns (every commit expires them): an object whose status was read while "
+                f"the job was running keeps displaying RUNNING after record_job_end, while the status filters -- which read end_time/call_hash/cached -- return it for DONE and not for RUNNING",
+                db.rel,
+                cls.lineno,
+            )
 
 
 def _console_rules(ctx, repo, display, ERR, err_q, JOB_STATUSES):
